@@ -23,6 +23,7 @@ MANIFEST = dict(
 
 IMG_H, IMG_W = 640, 520
 _SHARED = {}
+_HELD = {}
 STARTS = [(150, 320), (3, 8), (-15, 40)]
 SLOPES = [0.0, 0.25, -0.25, 0.5, -0.5, 1.0, -1.0, 1.5, -1.5]
 POINTCFG = [(2, 0), (3, 0), (3, 2), (4, 0), (4, -1), (5, 1)]        # (number of points, perpendicular offset of inner points)
@@ -75,11 +76,16 @@ def shards(tier):
             for pc in range(len(POINTCFG)):
                 out.append({'start': si, 'poly': poly, 'pc': pc})
     out.append({'degenerate': True})
+    for poly in POLYS:
+        out.append({'dense': True, 'poly': poly})
     return out
 
 
-def baseline_points(start, dx, slope, pc):
-    n, off = POINTCFG[pc]
+DENSE_N = [33, 64, 65, 66, 70, 90, 129, 160]          # densely sampled baselines (one point every second pixel), as CNN layout engines produce
+
+
+def baseline_points(start, dx, slope, pc, dense=None):
+    n, off = POINTCFG[pc] if dense is None else (dense, 0)
     x0, y0 = STARTS[start]
     dy = int(round(dx * slope))
     pts = []
@@ -104,6 +110,13 @@ def run_shard(shard, ctx, tier):
         for di in range(len(DEGENERATE)):
             for poly in POLYS:
                 guarded_check(mod, {'degenerate': di, 'poly': poly}, ctx)
+        return
+    if shard.get('dense'):
+        for n in DENSE_N:
+            for sl in (0, 3, 4):           # slopes 0 and +-0.5: with a point every second pixel the rounded points stay exactly collinear
+                for lh in (16, 48):
+                    guarded_check(mod, {'start': 0, 'poly': shard['poly'], 'pc': 0, 'dx': 2 * (n - 1), 'slope': sl, 'h': 0, 'lh': lh, 'scale': 1.0,
+                                        'dense': n}, ctx)
         return
     for dx in b['dx']:
         for sl in range(len(SLOPES)):
@@ -168,7 +181,9 @@ def check_case(case, ctx):
         return check_degenerate(case, ctx)
     import cv2
     from pero_ocr.core.crop_engine import EngineLineCropper
-    pts = baseline_points(case['start'], case['dx'], SLOPES[case['slope']], case['pc'])
+    pts = baseline_points(case['start'], case['dx'], SLOPES[case['slope']], case['pc'], dense=case.get('dense'))
+    if case.get('dense'):
+        ctx.tag('baselines-with-more-than-64-points' if case['dense'] > 64 else 'densely-sampled-baselines')
     h_up, h_down = HEIGHTS[case['h']]
     lh, sc, poly = case['lh'], case['scale'], case['poly']
     ctx.state((tuple(map(tuple, pts)), case['h'], lh, sc, poly))
@@ -184,6 +199,16 @@ def check_case(case, ctx):
         shared = _SHARED.setdefault((lh, poly, sc), EngineLineCropper(line_height=lh, poly=poly, scale=sc))
         other = shared.crop(img, np.asarray(pts), np.asarray([h_up, h_down], dtype=np.float64))
         ctx.executed()
+        # ... and the crop it handed out for the PREVIOUS line (still held by that line) is not touched by this call
+        prev = _HELD.get((lh, poly, sc))
+        _HELD[(lh, poly, sc)] = (other, other.copy(), desc)
+        if prev is not None and not np.array_equal(prev[0], prev[1]):
+            ctx.violation('same-crop-on-every-call', f'{K}/crop-of-the-previous-line-overwritten',
+                          f'{desc}: cropping this line changed the array returned earlier for the previous line ({prev[2]}); both crops have shape '
+                          f'{prev[0].shape} / {other.shape}')
+            return
+        if prev is not None and prev[0].shape == other.shape:
+            ctx.tag('consecutive-crops-of-equal-shape')
         if other.shape != crop.shape or not np.array_equal(other, crop):
             ctx.violation('same-crop-on-every-call', f'{K}/long-lived-cropper-differs-from-a-fresh-one',
                           f'{desc}: a cropper object that has cropped other lines before yields {other.shape}, a fresh one {crop.shape}'
@@ -392,6 +417,6 @@ def describe(tier):
                         'the last column may fall up to 1 px short of the last baseline point (integer sampling of the baseline)',
                         'for degenerate baselines both a proper crop and a blank image of the configured height are accepted'],
         'min_nontrivial': 100,
-        'required_tags': ['curved-baselines', 'cubic-with-4-or-more-points', 'general-path-vs-fast-path', 'fast-path-vs-full-remap',
+        'required_tags': ['consecutive-crops-of-equal-shape', 'baselines-with-more-than-64-points', 'curved-baselines', 'cubic-with-4-or-more-points', 'general-path-vs-fast-path', 'fast-path-vs-full-remap',
                           'degenerate-baselines', 'cropped-twice', 'line-cropper-partly-outside', 'baseline-dtypes'],
     }
